@@ -160,3 +160,23 @@ pub fn unresolved<T: serde::Serialize>(t: &T) -> Unresolved {
     u.inputs.dedup();
     u
 }
+
+// ---- Tx-level helpers built on the serde-independent structural image (`common::shape`) ----
+
+pub fn canon_tx(t: &tx3_tir::model::v1beta0::Tx) -> Value {
+    super::shape::tx(t)
+}
+
+pub fn canon_tx_sums(t: &tx3_tir::model::v1beta0::Tx) -> Value {
+    super::shape::tx_sums(t)
+}
+
+pub fn unresolved_tx(t: &tx3_tir::model::v1beta0::Tx) -> Unresolved {
+    let mut u = Unresolved::default();
+    walk(&super::shape::tx(t), &mut u);
+    u.values.sort();
+    u.values.dedup();
+    u.inputs.sort();
+    u.inputs.dedup();
+    u
+}
